@@ -41,6 +41,7 @@ fn main() {
         "race" => race::run(&opts),
         "scan" => race::run_scan(&opts),
         "sweep" => race::run_sweep(&opts),
+        "lagfullchild" => crash::lagfull(&opts),
         "sweepsched" => sweepsched::run(&opts),
         "abuf" => abuf::run(&opts),
         "abufallocchild" => abuf::allocchild(&opts),
